@@ -38,6 +38,25 @@ theorem fixOne_relative {ss : List Stmt} {i : Nat} {s : Stmt} {b : Nat}
   simp only [hk, beq_self_eq_true, if_true, hb]
   rfl
 
+/-- (batch 8) a branch field is a number after `fixOne` (so the pass over the lists leaves it alone) -/
+theorem fixOne_relative_isNumeric {ss : List Stmt} {i : Nat} {s s1 : Stmt}
+    (hk : s.operand.kind = .relative) (h : fixOne ss i s = .ok s1) : s1.pkg.additional.isNumeric = true := by
+  cases hb : s.pkg.additional.int? with
+  | none => unfold fixOne at h; simp only [hk, beq_self_eq_true, if_true, hb] at h; cases h
+  | some b =>
+    rw [fixOne_relative hk hb] at h
+    split at h
+    · split at h
+      · cases h
+      · split at h
+        · rename_i v hv; cases h; exact EL.numericOfInt_isNumeric hv
+        · cases h
+    · split at h
+      · cases h
+      · split at h
+        · rename_i v hv; cases h; exact EL.numericOfInt_isNumeric hv
+        · cases h
+
 /-- the value stored for a branch: `n` with the size hint of the branch class -/
 def branchValue (short : Bool) (n : Nat) : Value := .numeric n (some (if short then 2 else 4)) .extended false
 
@@ -574,8 +593,18 @@ theorem Stages.branch_pre {fs : Files} {lines : List Str} {a : Assembly} (st : S
   obtain ⟨v4, h4⟩ := tr.addr
   have hrow4 : tr.s4.row = tr.s0.row := by rw [h4, h3]; rfl
   have hpkg4 : tr.s4.pkg = { tr.p with address := v4 } := by rw [h4, h3]; rfl
-  refine ⟨tr.s4, tr.sf, tr.h4, tr.hfix, tr.hfit, fixOne_same tr.hfix,
-    (fixOne_same tr.hfix).trans (fitWidth_same tr.hfit), ?_, ?_, ?_, ?_, ?_, ?_, ?_⟩
+  -- (batch 8) the field is a number after `fixOne` and `fitWidth`: the pass over the lists leaves the statement alone
+  have hk4 : tr.s4.operand.kind = .relative := by
+    have : tr.s4.operand = tr.o := by rw [h4, h3]; rfl
+    rw [this]; exact hko
+  have hsw : tr.sw = s := by
+    have hnum := fitWidth_isNumeric tr.hfit (fixOne_relative_isNumeric hk4 tr.hfix)
+    have := tr.hlist
+    rw [evalList1_numeric _ _ hnum] at this
+    exact Outcome.ok.inj this
+  have hfit : fitWidth tr.sf = .ok s := tr.hfit.trans (congrArg Outcome.ok hsw)
+  refine ⟨tr.s4, tr.sf, tr.h4, tr.hfix, hfit, fixOne_same tr.hfix,
+    (fixOne_same tr.hfix).trans (fitWidth_same hfit), ?_, ?_, ?_, ?_, ?_, ?_, ?_⟩
   · rw [hpkg4, hop]; exact t1
   · rw [hop]; exact t2
   · rw [hrow4]; exact tr.parsed.1
